@@ -618,6 +618,12 @@ void parallel_for(
   }
 
   if (isStatic) {
+    // With wait == false the chunks are already executing on pool threads when we get here, so
+    // running the granularity tail on the caller would use *states.begin() concurrently with the
+    // first chunk and run one body more than maxThreads allows.  Let the last chunk cover the tail
+    // instead (it then is the one chunk whose size is not a multiple of the granularity, and it
+    // ends at the range end).
+    const bool foldTail = hasTail && !options.wait;
     detail::parallel_for_staticImpl(
         taskSet,
         states,
@@ -627,8 +633,11 @@ void parallel_for(
         static_cast<ssize_t>(maxThreads),
         options.wait,
         options.reuseExistingState,
-        granularity);
-    runTail();
+        granularity,
+        foldTail ? &range.end : nullptr);
+    if (!foldTail) {
+      runTail();
+    }
     return;
   }
 
